@@ -320,8 +320,14 @@ def run(tier):
             reset()
     merge(rep, [acc.pack()], part='temporary documents created, validated and deleted in turn (8 rounds of valid / invalid / valid / invalid)')
     # ---- all triples over the reduced alphabet (state kept outside the two result caches shows only in such mixed histories)
-    triples = [list(t) for t in itertools.product(R, repeat=3)]
-    go('all triples over the reduced alphabet of %d calls' % len(R), work, [('triple', triples[i::64]) for i in range(64)])
+    RT = list(R)
+    if tier == 'thorough':
+        # a wider reduced alphabet: the expect_failure twins of the own-sample calls, and the schema checks with a second validator class
+        RT += [(c[0], c[1], c[2], True) for c in R if c[0] == 'va' and own_schema(os.path.basename(c[1])) == c[2]]
+        RT += [('sv', 'json/%s.json' % sname, 'Draft7Validator', ef) for sname in SCHEMAS[:4] for ef in (False, True)]
+        RT = [c for c in dict.fromkeys(RT) if tuple(c) in fresh]
+    triples = [list(t) for t in itertools.product(RT, repeat=3)]
+    go('all triples over the reduced alphabet of %d calls' % len(RT), work, [('triple', triples[i::64]) for i in range(64)])
     # ---- saturated histories
     probes = A if tier == 'thorough' else [c for c in A if c[0] == 'sv'] + [c for c in A if c[0] == 'va'][::3]
     go('saturated histories around %d probes (19/20/21 distinct keys)' % len(probes), sat_work, [(probes[i::32],) for i in range(32)])
